@@ -16,6 +16,7 @@ import time
 
 import vlib
 import pool_goals
+import pool_selftest
 
 TAGS = {"C02": "C02:", "C03": "C03:", "C04": "C04:", "C05": "C05:", "C06": "C06:", "C14": "C14:", "C15": "C15:"}
 
@@ -150,7 +151,7 @@ def monitor(pid, trace_path):
     return v[0], r
 
 
-def trace_validate(pid, path, max_restarts=8):
+def trace_validate(pid, path, max_restarts=8, cfg="PoolTrace.cfg"):
     """Validates a recorded real trace against Pool.tla itself (PoolTrace.tla).  Returns
     (runs accepted, runs rejected, first rejections).  A rejection is DRIFT, never an alarm."""
     trace = vlib.read_ndjson(path)
@@ -162,7 +163,7 @@ def trace_validate(pid, path, max_restarts=8):
             break
         part = os.path.join(d, "tv-part.ndjson")
         vlib.write_ndjson(part, rest)
-        r = vlib.tlc_trace("PoolTrace.tla", "PoolTrace.cfg", pid, part, timeout=3000)
+        r = vlib.tlc_trace("PoolTrace.tla", cfg, pid, part, timeout=3000)
         rj = r.printed("REJECT") if False else None
         k = None
         for line in r.out.splitlines():
@@ -265,7 +266,7 @@ def run(pid, tier, seed, t0, asbuilt=None):
     for i, wargs in enumerate(WALKS[tier][pid]):
         wpath = os.path.join(d, f"walk-trace-{i}.ndjson")
         one = json.loads(vlib.run_harness("pool", ["walk", "--seed", seed + 1000 * i, "--out", wpath] + wargs))
-        wtraces.append((wpath, True))
+        wtraces.append((wpath, "PoolTrace_small.cfg" if int(wargs[wargs.index("--origins") + 1]) <= 2 else "PoolTrace.cfg"))
         wk["runs"] += one["runs"]
         wk["steps"] += one["steps"]
         wk["panics"] += one["panics"]
@@ -297,6 +298,9 @@ def run(pid, tier, seed, t0, asbuilt=None):
             verdict.violation(key, f"clause {v['tag']} falsified at record {v['l'] - v['base']} of run {v['run']} ({os.path.basename(path)})",
                               {"kind": "pool-trace", "clause": v["tag"], "at": v["l"] - v["base"], "records": recs})
         all_viol += mine
+
+    # ---- self-test of the monitors on corrupted copies of the real runs (vacuity / binding guard; tool error if it fails)
+    selftest = pool_selftest.run(pid, [gtrace, rtrace])
 
     # ---- C06 at the key level: PoolKeys.tla (token map) + the many-origins scenario on the real pool
     keys = None
@@ -335,10 +339,8 @@ def run(pid, tier, seed, t0, asbuilt=None):
 
     # ---- trace validation of the random walks against Pool.tla itself (impl -> spec; DRIFT only)
     tv = None
-    for wpath, small in wtraces:
-        if not small:
-            continue
-        acc, rejd, rej = trace_validate(pid, wpath)
+    for wpath, tcfg in wtraces:
+        acc, rejd, rej = trace_validate(pid, wpath, cfg=tcfg)
         if tv is None:
             tv = {"runs_accepted": 0, "runs_rejected": 0, "first_rejections": []}
         tv["runs_accepted"] += acc
@@ -376,6 +378,7 @@ def run(pid, tier, seed, t0, asbuilt=None):
         "drift": rep["drifted"] + grep_["drifted"] + (tv["runs_rejected"] if tv else 0),
         "walk_trace_validation": tv,
         "key_level": keys,
+        "monitor_selftest": selftest,
         "walk": wk,
         "monitor_records": nrec,
         "monitor_on_model_behaviours": {"behaviours": min(len(behs), 400 if tier == "quick" else 4000), "clauses_flagged": model_flags},
